@@ -3,6 +3,7 @@ import Driver.Ledger
 import Driver.LedgerOracle
 import Driver.App
 import Driver.SflOracle
+import Driver.Symbase
 open Driver
 
 def runLedger (c : Case) : Res :=
@@ -25,6 +26,8 @@ def dispatch (c : Case) : Res :=
   match c.family with
   | "ledger" => runLedger c
   | "app" => runApp c
+  | "symbase" => runSymbase c
+  | "symparse" => runSymparse c
   | f => { verdict := "BADCASE", msg := s!"unknown family {f}" }
 
 def main : IO Unit := do
